@@ -177,18 +177,21 @@ def run_asyncio(app, config, script, alpn=None, max_requests=None, tail=30.0):
             if step[0] == "send":
                 if not writer.closed and reader.exception() is None and not reader.at_eof():
                     reader.feed_data(step[1])
-                await asyncio.sleep(0)
+                for _ in range(12):
+                    await asyncio.sleep(0)
             elif step[0] == "sleep":
                 await asyncio.sleep(step[1])
             elif step[0] == "eof":
                 if not reader.at_eof():
                     reader.feed_eof()
-                await asyncio.sleep(0)
+                for _ in range(12):
+                    await asyncio.sleep(0)
             elif step[0] == "reset":
                 writer.fail = True
                 if reader.exception() is None:
                     reader.set_exception(ConnectionResetError("reset by peer"))
-                await asyncio.sleep(0)
+                for _ in range(12):
+                    await asyncio.sleep(0)
             elif step[0] == "terminate":
                 result["trace"].append((loop.time(), "terminate"))
                 await context.terminated.set()
@@ -197,7 +200,7 @@ def run_asyncio(app, config, script, alpn=None, max_requests=None, tail=30.0):
         try:
             await asyncio.wait_for(asyncio.shield(task), tail)
         except asyncio.TimeoutError:
-            pass
+            result["cutoff"] = loop.time()
         result["leftovers"] = sorted(t.get_coro().__qualname__ for t in asyncio.all_tasks(loop)
                                      if t is not asyncio.current_task() and not t.done())
         for t in asyncio.all_tasks(loop):
@@ -239,11 +242,15 @@ def run_trio(app, config, script, alpn=None, max_requests=None, tail=30.0):
             self.inner = inner
             self.socket = FakeSock()
             self.fail = False
+            self.closed = False
+            self.t0 = 0.0
+            self.reset = trio.Event()
 
         async def send_all(self, data):
             if self.fail:
                 raise trio.BrokenResourceError("peer gone")
             await self.inner.send_all(data)
+            log.append((trio.current_time() - self.t0, "data", bytes(data)))
 
         async def wait_send_all_might_not_block(self):
             await self.inner.wait_send_all_might_not_block()
@@ -251,12 +258,35 @@ def run_trio(app, config, script, alpn=None, max_requests=None, tail=30.0):
         async def receive_some(self, max_bytes=None):
             if self.fail:
                 raise trio.BrokenResourceError("reset by peer")
-            return await self.inner.receive_some(max_bytes)
+            got = []
+
+            async def rd(scope):
+                try:
+                    got.append(("ok", await self.inner.receive_some(max_bytes)))
+                except (trio.BrokenResourceError, trio.ClosedResourceError, trio.BusyResourceError) as e:
+                    got.append(("exc", e))
+                scope.cancel()
+
+            async def rs(scope):
+                await self.reset.wait()
+                scope.cancel()
+
+            async with trio.open_nursery() as n:
+                n.start_soon(rd, n.cancel_scope)
+                n.start_soon(rs, n.cancel_scope)
+            if self.fail or not got:
+                raise trio.BrokenResourceError("reset by peer")      # a pending read fails when the peer resets
+            if got[0][0] == "exc":
+                raise got[0][1]
+            return got[0][1]
 
         async def send_eof(self):
             await self.inner.send_eof()
 
         async def aclose(self):
+            if not self.closed:
+                self.closed = True
+                log.append((trio.current_time() - self.t0, "close", None))
             await self.inner.aclose()
 
     class SSLServerStream:
@@ -289,6 +319,7 @@ def run_trio(app, config, script, alpn=None, max_requests=None, tail=30.0):
         t0 = trio.current_time()
         client, server_inner = trio.testing.memory_stream_pair()
         sstream = ServerStream(server_inner)
+        sstream.t0 = t0
         stream = SSLServerStream(sstream, alpn) if alpn else sstream
         context = WorkerContext(max_requests)
         server = TCPServer(ASGIWrapper(wrapped), config, context, {}, stream)
@@ -311,11 +342,9 @@ def run_trio(app, config, script, alpn=None, max_requests=None, tail=30.0):
                 while True:
                     data = await client.receive_some(65536)
                     if data == b"":
-                        log.append((trio.current_time() - t0, "close", None))
                         return
-                    log.append((trio.current_time() - t0, "data", bytes(data)))
             except (trio.BrokenResourceError, trio.ClosedResourceError):
-                log.append((trio.current_time() - t0, "close", None))
+                pass
 
         async with trio.open_nursery() as nursery:
             nursery.start_soon(serve)
@@ -324,16 +353,17 @@ def run_trio(app, config, script, alpn=None, max_requests=None, tail=30.0):
                 try:
                     if step[0] == "send":
                         await client.send_all(step[1])
-                        await trio.sleep(0)
+                        await trio.testing.wait_all_tasks_blocked()
                     elif step[0] == "sleep":
                         await trio.sleep(step[1])
                     elif step[0] == "eof":
                         await client.send_eof()
-                        await trio.sleep(0)
+                        await trio.testing.wait_all_tasks_blocked()
                     elif step[0] == "reset":
                         sstream.fail = True
+                        sstream.reset.set()
                         await client.aclose()
-                        await trio.sleep(0)
+                        await trio.testing.wait_all_tasks_blocked()
                     elif step[0] == "terminate":
                         result["trace"].append((trio.current_time() - t0, "terminate"))
                         await context.terminated.set()
@@ -343,6 +373,7 @@ def run_trio(app, config, script, alpn=None, max_requests=None, tail=30.0):
             with trio.move_on_after(tail):
                 await done.wait()
             if not done.is_set():
+                result["cutoff"] = trio.current_time() - t0
                 result["leftovers"] = ["<handler still running>"]
             nursery.cancel_scope.cancel()
 
